@@ -357,10 +357,61 @@ def gen_prec():
     return f'{len(rows)} operators on {len(set(r[0] for r in rows))} levels, {len(atoms)} atoms'
 
 
+# --------------------------------------------------------------------------------------------
+# Stages: analyzer/src/stages.rs (order of transforms and rules), the Problem variants each stage names,
+#         problems/resources/problem-codes.csv
+# --------------------------------------------------------------------------------------------
+
+def gen_stages():
+    import csv, io
+    src = read('compiler/analyzer/src/stages.rs')
+    def vec_of(var):
+        m = re.search(r'let\s+' + var + r'\s*:[^=]*=\s*vec!\s*\[(.*?)\]\s*;', src, re.S)
+        if not m: raise ValueError(f'`let {var}: Vec<..> = vec![..]` not found in stages.rs')
+        items = re.findall(r'(\w+)\s*::\s*apply', re.sub(r'//[^\n]*', '', m.group(1)))
+        if not items: raise ValueError(f'no `<module>::apply` entries in {var}')
+        return items
+    xforms, rules = vec_of('xforms'), vec_of('functions')
+    codes = {}
+    rows = []
+    for r in csv.DictReader(io.StringIO(read('compiler/problems/resources/problem-codes.csv'))):
+        c = r['Code'].strip(); n = r['Name'].strip()
+        if not re.match(r'^P\d{4}$', c): raise ValueError('unexpected problem code ' + c)
+        codes[n] = int(c[1:]); rows.append((int(c[1:]), n))
+    named = []
+    for mod in xforms + rules:
+        text = read(f'compiler/analyzer/src/{mod}.rs').split('#[cfg(test)]')[0]
+        text = re.sub(r'//[^\n]*', '', text)
+        ps = sorted(set(re.findall(r'Problem::(\w+)', text)))
+        for pn in ps:
+            if pn not in codes: raise ValueError(f'{mod}.rs names Problem::{pn}, which problem-codes.csv does not list')
+        named.append((mod, sorted(codes[pn] for pn in ps)))
+    lst = lambda xs: '[' + ', '.join(f'"{x}"' for x in xs) + ']'
+    out = ['-- GENERATED by translator/gen_tables.py from compiler/analyzer/src/stages.rs, the stage modules and',
+           '-- compiler/problems/resources/problem-codes.csv; do not edit',
+           'namespace Gen',
+           '/-- the `xforms` vector of `resolve_types`, in order -/',
+           'def xforms : List String := ' + lst(xforms),
+           '/-- the `functions` vector of `semantic`, in order -/',
+           'def rules : List String := ' + lst(rules),
+           '/-- per stage module: the codes of the `Problem::` variants its (non-test) source names, ascending -/',
+           'def stageProblems : List (String × List Nat) := [',
+           ',\n'.join(f'  ("{m}", [{", ".join(str(c) for c in cs)}])' for m, cs in named),
+           ']',
+           '/-- problem-codes.csv: code number and name -/',
+           'def problems : List (Nat × String) := [',
+           ',\n'.join(f'  ({c}, "{n}")' for c, n in rows),
+           ']',
+           'end Gen']
+    write_if_changed('Stages.lean', '\n'.join(out) + '\n')
+    return f'{len(xforms)} transforms, {len(rules)} rules, {len(rows)} problem codes'
+
+
 TABLES = {
     'Tokens': gen_tokens,
     'Prec': gen_prec,
     'Legend': gen_legend,
+    'Stages': gen_stages,
 }
 
 
